@@ -121,6 +121,7 @@ func (a *ArrayDataSlab) Encode(enc *Encoder) error {
 
 	// Get a buffer from a pool to encode elements.
 	elementBuf := getBuffer()
+	verifEvent("buffer.get", elementBuf)
 	defer putBuffer(elementBuf)
 
 	elementEnc := NewEncoder(elementBuf, enc.encMode)
